@@ -79,4 +79,29 @@ PROPS = {
                      "uint32 wrap of msize*8 for msize >= 2^29 is outside the model (a server cannot be configured that large in practice)"],
         "assumptions": ["G9.Frame mirrors the receive loops of srv_conn.go and clnt_clnt.go (checked by the differential run)"],
     },
+    "C14": {
+        "rule": 'real client <-> real Ufs on a scratch tree: 1..4 files open at once with lengths {0,1,iounit-1,iounit,iounit+1,2iounit+-1,random}, msize 128..64K, both dialects, 12 random operations each (Clnt.Read, File.Readn, File.Read, Clnt.Write, File.Written) at boundary and random (offset,count) incl. counts > iounit and offsets past EOF; oracle os.ReadFile; Readn lengths compared with the Lean loop. non-trivial = distinct scenario lines and readn cases',
+        "modelled": ['modelled, not verified: everything the operating system does (Lstat, ReadAt, WriteAt, Readdir, Mkdir, Symlink, Link, Remove, Rename, Truncate, Chmod, Chtimes), os/user, time; sort.SearchInts as first-index->= on a sorted slice'],
+        "assumptions": ["G9.UfsLogic mirrors the arithmetic/decision logic of ufs.go and the client file helpers (checked by the differential run)", "runs as the current user; permission-denied outcomes are never required"],
+    },
+    "C15": {
+        "rule": 'real directories of 0,1,2,3,7,50 (thorough: thousands of) entries with name lengths 1..255, msize 304..64K, both dialects: full listing decoded record by record and compared with the directory; Readdir(0); for small directories every count from the largest entry to three entries at every entry boundary, too-small counts, random counts, listing with a random count per read; offsets the rule does not allow (inside an entry, past the end, 2^62, 2^64-1); each probe compared with the Lean window. non-trivial = distinct probes that returned data',
+        "modelled": ['modelled, not verified: everything the operating system does (Lstat, ReadAt, WriteAt, Readdir, Mkdir, Symlink, Link, Remove, Rename, Truncate, Chmod, Chtimes), os/user, time; sort.SearchInts as first-index->= on a sorted slice'],
+        "assumptions": ["G9.UfsLogic mirrors the arithmetic/decision logic of ufs.go and the client file helpers (checked by the differential run)", "runs as the current user; permission-denied outcomes are never required"],
+    },
+    "C16": {
+        "rule": "random trees (nesting 2..40, names 1..255 bytes with spaces and non-ASCII, files, directories, symlinks, a hard link, a chain deep enough for several Twalks): stat of every object in both dialects against os.Lstat (type bits, length, permission bits, mtime, name, qid path = inode, distinct for distinct files); walks of 0..16 elements of which a prefix exists, in place and to a new fid, with the fids' targets checked afterwards; walk outcome compared with the Lean model. non-trivial = distinct walks that resolved",
+        "modelled": ['modelled, not verified: everything the operating system does (Lstat, ReadAt, WriteAt, Readdir, Mkdir, Symlink, Link, Remove, Rename, Truncate, Chmod, Chtimes), os/user, time; sort.SearchInts as first-index->= on a sorted slice'],
+        "assumptions": ["G9.UfsLogic mirrors the arithmetic/decision logic of ufs.go and the client file helpers (checked by the differential run)", "runs as the current user; permission-denied outcomes are never required"],
+    },
+    "C17": {
+        "rule": 'twin trees: random sequences of create/mkdir/remove/write/truncate/chmod/rename (free and occupied names)/set-mtime applied through 9P to one copy and with the os package to the other, compared after every step (names, kinds, contents, permission bits, link targets, link counts) together with success/failure and, in .u, the errno; the open-flag table compared for all 256 modes. non-trivial = distinct scenarios + table rows',
+        "modelled": ['modelled, not verified: everything the operating system does (Lstat, ReadAt, WriteAt, Readdir, Mkdir, Symlink, Link, Remove, Rename, Truncate, Chmod, Chtimes), os/user, time; sort.SearchInts as first-index->= on a sorted slice'],
+        "assumptions": ["G9.UfsLogic mirrors the arithmetic/decision logic of ufs.go and the client file helpers (checked by the differential run)", "runs as the current user; permission-denied outcomes are never required"],
+    },
+    "C18": {
+        "rule": "attach names, walk lists, create names, symlink targets and rename targets drawn from a grammar of '..', '.', '', '/', absolute paths, '../' chains and mixtures with real names at three depths, followed by stat/open/read; canary file and directory next to and above the root must stay untouched and no qid or data of an outside object may be returned; filepath.Clean mirror compared on a component grammar. non-trivial = distinct scenarios and paths",
+        "modelled": ['modelled, not verified: everything the operating system does (Lstat, ReadAt, WriteAt, Readdir, Mkdir, Symlink, Link, Remove, Rename, Truncate, Chmod, Chtimes), os/user, time; sort.SearchInts as first-index->= on a sorted slice'],
+        "assumptions": ["G9.UfsLogic mirrors the arithmetic/decision logic of ufs.go and the client file helpers (checked by the differential run)", "runs as the current user; permission-denied outcomes are never required"],
+    },
 }
